@@ -37,11 +37,11 @@ func (q *queue) push(entry any) (droppedEvent any) {
 	}
 	if pos == q.head {
 		// drop the entry at the head of the queue
+		droppedEvent = q.entries[q.head]
 		q.head++
 		if q.head == len(q.entries) {
 			q.head = 0
 		}
-		droppedEvent = q.entries[q.head]
 	}
 	q.entries[pos] = entry
 	q.tail = pos
